@@ -74,6 +74,16 @@ CLAIMED = {
             'graph pruning clauses carry !gamma and gamma is renewed only when false; theory conflicts are analysed over their own literals after back-jumping to their highest level. '
             'Soundness of first-UIP analysis and of theory explanations on arbitrary histories is not decided (C07/C09/C10 decide their structural parts).',
             'The frozen throw sites are named with a reason in orv/rules/C02.py.', 'DESIGN.md 4 C02'),
+    'C04': ('solution-gate CFG rule + structural rules of the state-variable checker: peak test, unconditional per-pair reporting, canonical-expression check of the ordering literals, sweep sibling agreement, listener exhaustiveness',
+            'Static: a plan is only reported after the timeline check that follows the last decision; the check considers exactly the active atoms, treats two overlapping atoms as a peak, reports every overlapping pair '
+            '(also with no choice left), offers both orderings; the ordering literal leqs[X][Y] is end(X) <= start(Y) at all 8 stores; checker and timeline extractor sweep alike; listeners cover every parameter kind. '
+            'Completeness of the to_check bookkeeping on arbitrary histories is not decided.',
+            'Rests on C01.R1/R2 (gate) and C11 (meaning of new_leq).', 'DESIGN.md 4 C04'),
+    'C05': ('solution-gate CFG rule + structural rules of the reusable-resource checker: unconditional usage accumulation over all overlapping atoms, strict peak test against the instance capacity, MCS window, no-unification clause, synthetic constraints, ordering literals',
+            'Static: usage is the sum of the amounts of all active overlapping Use atoms, compared strictly with the capacity of that instance; every minimal conflict set found is reported unconditionally; '
+            'the extracted timeline accumulates the same way; Use atoms are never unified; capacity >= 0 and amount >= 0 are part of the synthetic constructor / predicate; ordering literals as in C04. '
+            'Optimality of the MCS enumeration is not decided.',
+            'Rests on C01.R1/R2 (gate) and C11.', 'DESIGN.md 4 C05'),
 }
 
 NOT_YET = {}
